@@ -174,7 +174,7 @@ class C06(Prop):
             "case has an error with absolute path length >= 2, or element index >= 1, or inside a context, or behind a "
             "reference.")
     ASSUMPTIONS = ["Draft 3 `required`, propertyNames and false-schema errors are carved out as the property states"]
-    GATES = {"deep-path": 300, "in-context": 300, "instance-index>=1": 300, "behind-ref": 100}
+    GATES = {"deep-path": 300, "in-context": 300, "instance-index>=1": 300, "behind-ref": 100, "outliving-errors": 300}
     MIN_NONTRIVIAL = 300
 
     def strategy(self, tier):
@@ -207,6 +207,23 @@ class C06(Prop):
             res.evals += len(closure(errors))
             if len(res.labels) > n0:
                 res.nontrivial = True
+            if any(e.context for e in errors) and not res.failures and res.labels.count("outliving-errors") < 6:
+                # errors that outlive the ones they came with: what best_match hands back, what jsonschema.validate
+                # raises, and context errors kept while their parents are let go
+                del errors
+                try:
+                    bm = impl.exceptions.best_match(cls(s).iter_errors(x))
+                    kids = [c for e in cls(s).iter_errors(x) for c in e.context]
+                    try:
+                        impl.jsonschema.validate(x, s, cls=cls)
+                        raised = None
+                    except impl.exceptions.ValidationError as e:
+                        raised = e
+                except Exception:
+                    continue
+                for tag, group in (("best_match", [bm]), ("validate", [raised] if raised is not None else []), ("kept-context", kids)):
+                    check_errors(res, d, s, x, group, tag=tag)
+                res.labels.append("outliving-errors")
         return res
 
     def check_world(self, case, res):
